@@ -140,6 +140,8 @@ def check(ck, prog):
         ck.ob("C08.5", f"{nm}|driver-moves-no-data", not st and not ld, fn=fn["path"], site=ctx.site((st or ld)[0][0]) if (st or ld) else None,
               detail=f"{nm} loads/stores memory itself ({len(ld)} loads, {len(st)} stores) instead of through its leaf loops: the bytes it touches are outside the tiling argument (an overlapping word at the tail re-reads source bytes a forward memmove has already overwritten)")
         other = [(bb, t) for bb, t in cfg.calls(lambda t: t.get("callee") and not t["callee"].startswith(M + nm + "::") and not t["callee"].endswith(PTR_ADD + PTR_SUB + ("::wrapping_neg",)))]
+        # (a discharged assertion - one whose failing edge is infeasible - is not part of the driver's behaviour)
+        other = [(bb, t) for bb, t in other if not (t["callee"].startswith("core::panicking::") and [x for x in panics.sites(ctx) if x["bb"] == bb] and all(panics.discharge(ctx, x)[0] for x in panics.sites(ctx) if x["bb"] == bb))]
         ck.ob("C08.5", f"{nm}|driver-vocabulary", not other, fn=fn["path"], site=ctx.site(other[0][0]) if other else None,
               detail=f"calls other than leaf routines / pointer add,sub / wrapping_neg in the driver: {sorted({t['callee'] for _, t in other})}")
         adds, subs = ptr_calls(ctx, PTR_ADD), ptr_calls(ctx, PTR_SUB)
@@ -196,33 +198,69 @@ def check(ck, prog):
         st = deref_stores(ctx, fn)
         st_in = [x for x in st if x[0] in cyc]
         ck.ob("C08.6", f"{short}|one-store-per-round", len(st) == 1 and len(st_in) == 1, fn=lf, detail=f"stores through raw pointers: {len(st)} ({len(st_in)} inside the loop); the tiling argument needs exactly one, inside the loop")
-        # the same loop written with an element index instead of moving cursors (forward leaves only):
-        #   i = 0; while i < n { *dest.add(i) = *src.add(i) | fill; i += 1 }
-        if direction > 0 and len(st) == 1 and len(st_in) == 1:
+        # the same loop written with an element index instead of moving cursors:
+        #   forward:  i = 0; while i < m { *dest.add(i) = *src.add(i) | fill; i += 1 }             covers [dest, dest + m*S)
+        #   backward: i = 0; while i < m { i += 1; *dest.sub(i) = *src.sub(i) }                    covers [dest - m*S, dest)
+        # with S the element size of the (possibly cast) pointers and m = n (S == 1) or n / S
+        if len(st) == 1 and len(st_in) == 1:
             sb, si, s0 = st_in[0]
+            want_calls = PTR_ADD if direction > 0 else PTR_SUB
+
+            def unptr(e):
+                e = strip_casts(e)
+                while isinstance(e, tuple) and e[0] == "call" and (e[1] or "").endswith(("::cast", "::cast_mut", "::cast_const")) and e[2]:
+                    e = strip_casts(e[2][0])
+                return e
+
+            def split_index(e):
+                e = strip_casts(e)
+                if isinstance(e, tuple) and e[0] == "bin" and e[1] in ("Add", "AddWithOverflow", "AddUnchecked") and fold(e[3]) == 1:
+                    return strip_casts(e[2]), 1
+                return e, 0
             dptr = strip_casts(ctx.prov.operand({"k": "copy", "p": {"l": s0["dst"]["l"]}}, (sb, si)))
             val = ctx.prov.rvalue(s0["rv"], (sb, si))
-            if isinstance(dptr, tuple) and dptr[0] == "call" and (dptr[1] or "").endswith(PTR_ADD) and canon(dptr[2][0]) == "p1" and isinstance(strip_casts(dptr[2][1]), tuple) and strip_casts(dptr[2][1])[0] == "var":
-                iv = strip_casts(dptr[2][1])
-                defs = [strip_casts(d) for d in ctx.prov.expand(iv)]
-                starts0 = sum(1 for d in defs if fold(d) == 0) == 1
-                incs = [d for d in defs if isinstance(d, tuple) and d[0] == "bin" and d[1] in ("Add", "AddWithOverflow", "AddUnchecked") and fold(d[3]) == 1 and canon(strip_casts(d[2])) == canon(iv)]
-                counter = len(defs) == 2 and starts0 and len(incs) == 1
-                guard = any(f[0] == "cmp" and f[1] == "Lt" and canon(strip_casts(f[2])) == canon(iv) and canon(strip_casts(f[3])) == f"p{fn['argc']}" for f in panics.dominating_facts(ctx, sb))
-                # the counter is bumped after the store, inside the loop, exactly once per round
-                inc_bbs = [b["id"] for b in fn["blocks"] if b["id"] in cyc for st2 in b["stmts"] if st2["k"] == "assign" and st2["dst"]["l"] == iv[1] and not st2["dst"].get("p")]
-                after = len(inc_bbs) == 1 and cfg.dominates(sb, inc_bbs[0])
-                other_ptr = [bb for bb, t in ptr_calls(ctx, PTR_ADD + PTR_SUB + PTR_OTHER_ARITH) if not (canon(ctx.args(bb)[1]) == canon(iv) and t["callee"].endswith(PTR_ADD) and canon(ctx.args(bb)[0]) in ("p1", "p2"))]
-                if nptr == 2:
-                    v = strip_casts(val)
-                    value_ok = isinstance(v, tuple) and v[0] == "deref" and isinstance(strip_casts(v[1]), tuple) and strip_casts(v[1])[0] == "call" and (strip_casts(v[1])[1] or "").endswith(PTR_ADD) and \
-                        canon(strip_casts(v[1])[2][0]) == "p2" and canon(strip_casts(v[1])[2][1]) == canon(iv)
-                else:
-                    value_ok = canon(strip_casts(val)) == "p2"
-                ck.ob("C08.6", f"{short}|index-form|counter-runs-0..n-by-one", counter and guard and after and not other_ptr, fn=lf,
-                      detail=f"element-index loop: the index must start at 0, be tested `< n` before every store and be increased by exactly one after it (counter={counter}, guard={guard}, bumped-after-store={after}, other pointer arithmetic={len(other_ptr)})")
-                ck.ob("C08.6", f"{short}|index-form|stores-element-i-of-the-source-or-the-fill-value", value_ok, fn=lf, detail=f"dest[i] must receive src[i] (or the fill byte); it receives {show(val)}")
-                continue
+            if isinstance(dptr, tuple) and dptr[0] == "call" and (dptr[1] or "").endswith(want_calls) and canon(unptr(dptr[2][0])) == "p1":
+                iv, off = split_index(dptr[2][1])
+                if isinstance(iv, tuple) and iv[0] == "var":
+                    S = lin.elem_size_of(dptr[2][0]) or 1
+                    defs = [strip_casts(d) for d in ctx.prov.expand(iv)]
+                    starts0 = sum(1 for d in defs if fold(d) == 0) == 1
+                    incs = [d for d in defs if isinstance(d, tuple) and d[0] == "bin" and d[1] in ("Add", "AddWithOverflow", "AddUnchecked") and fold(d[3]) == 1 and canon(strip_casts(d[2])) == canon(iv)]
+                    counter = len(defs) == 2 and starts0 and len(incs) == 1
+                    nparam = f"p{fn['argc']}"
+
+                    def bound_ok(bnd):
+                        bnd = strip_casts(bnd)
+                        if S == 1:
+                            return canon(bnd) == nparam
+                        if isinstance(bnd, tuple) and bnd[0] == "var":
+                            ds = list(ctx.prov.expand(bnd))
+                            bnd = strip_casts(ds[0]) if len(ds) == 1 else bnd
+                        return isinstance(bnd, tuple) and bnd[0] == "bin" and bnd[1] == "Div" and canon(strip_casts(bnd[2])) == nparam and fold(bnd[3]) == S
+                    guard = any(f[0] == "cmp" and f[1] == "Lt" and canon(strip_casts(f[2])) == canon(iv) and bound_ok(f[3]) for f in panics.dominating_facts(ctx, sb))
+                    inc_bbs = [b["id"] for b in fn["blocks"] if b["id"] in cyc for st2 in b["stmts"] if st2["k"] == "assign" and st2["dst"]["l"] == iv[1] and not st2["dst"].get("p")]
+                    # forward: element i is stored, then i is bumped; backward: i is bumped first and element i (the new value) is stored
+                    order = len(inc_bbs) == 1 and ((direction > 0 and off == 0 and cfg.dominates(sb, inc_bbs[0])) or (direction < 0 and off == 1) or
+                                                   (direction < 0 and off == 0 and cfg.dominates(inc_bbs[0], sb) and inc_bbs[0] != sb))
+                    def same_slot(e, want_base):
+                        e = strip_casts(e)
+                        if not (isinstance(e, tuple) and e[0] == "call" and (e[1] or "").endswith(want_calls) and canon(unptr(e[2][0])) == want_base):
+                            return False
+                        iv2, off2 = split_index(e[2][1])
+                        return canon(iv2) == canon(iv) and off2 == off and (lin.elem_size_of(e[2][0]) or 1) == S
+                    other_ptr = [bb for bb, t in ptr_calls(ctx, PTR_ADD + PTR_SUB + PTR_OTHER_ARITH) if not (same_slot(("call", t["callee"], tuple(ctx.args(bb)), bb), "p1") or same_slot(("call", t["callee"], tuple(ctx.args(bb)), bb), "p2"))]
+                    if nptr == 2:
+                        v = strip_casts(val)
+                        if isinstance(v, tuple) and v[0] == "call" and (v[1] or "").endswith("read_usize_unaligned") and v[2]:
+                            value_ok = same_slot(v[2][0], "p2")
+                        else:
+                            value_ok = isinstance(v, tuple) and v[0] == "deref" and same_slot(v[1], "p2")
+                    else:
+                        value_ok = not mentions(val, ctx.prov, lambda z: z[0] == "deref") and mentions(val, ctx.prov, lambda z: (z[0] == "param" and z[1] == 2) or z[0] == "var")
+                    ck.ob("C08.6", f"{short}|index-form|counter-runs-0..m-by-one", counter and guard and order and not other_ptr, fn=lf,
+                          detail=f"element-index loop: the index must start at 0, be tested `< n` (`< n / {S}` for {S}-byte elements) before every store and move by exactly one per round, the store using it {'before' if direction > 0 else 'after'} the bump (counter={counter}, guard={guard}, order={order}, other pointer arithmetic={len(other_ptr)})")
+                    ck.ob("C08.6", f"{short}|index-form|stores-element-i-of-the-source-or-the-fill-value", value_ok, fn=lf, detail=f"dest[i] must receive src[i] (or the fill value); it receives {show(val)}")
+                    continue
         steps = [(bb, t) for bb, t in ptr_calls(ctx, PTR_ADD + PTR_SUB) if bb in cyc]
         outside = [(bb, t) for bb, t in ptr_calls(ctx, PTR_ADD + PTR_SUB) if bb not in cyc]
         exotic = ptr_calls(ctx, PTR_OTHER_ARITH)
@@ -288,6 +326,8 @@ def check(ck, prog):
         ck.ob("C08.6", "read_usize_unaligned|reads-one-word-at-its-argument", ok and tys == ["[u8; 8]"], fn=ru["path"], detail=f"must read exactly [u8; 8] at the pointer it is given (read sites {len(reads)}, types {tys})")
     # ---- C08.7 compare -----------------------------------------------------------------------------------------------------------
     cb = prog.fns.get(M + "compare_bytes")
+    if cb is None and prog.fns.get(M + "memcmp") is not None and any(prog.ctx(prog.fns[M + "memcmp"]).cfg.in_cycle(b) for b in prog.ctx(prog.fns[M + "memcmp"]).cfg.live_blocks()):
+        cb = prog.fns[M + "memcmp"]        # the comparison loop written directly in memcmp (same parameters s1, s2, n)
     if ck.anchor("C08.7", "compare_bytes", cb):
         c = prog.ctx(cb)
         cfg = c.cfg
@@ -372,6 +412,9 @@ def check(ck, prog):
             if f is not None:
                 cc = prog.ctx(f)
                 calls = [(bb, t) for bb, t in cc.cfg.calls()]
+                if f is cb:
+                    ck.ob("C08.7", "memcmp-is-compare_bytes", True, fn=f["path"], detail="memcmp holds the comparison loop itself")
+                    continue
                 ok = len(calls) == 1 and calls[0][1].get("callee") == M + "compare_bytes" and [canon(x) for x in cc.args(calls[0][0])] == ["p1", "p2", "p3"] and \
                     all(isinstance(v, tuple) and v[0] == "call" and v[3] == calls[0][0] for v in cc.ret_expr().values())
                 ck.ob("C08.7", "memcmp-is-compare_bytes", ok, fn=f["path"], detail="memcmp must return compare_bytes(s1, s2, n) unchanged")
